@@ -82,8 +82,9 @@ def fromAttrs (tag : String) (attrs : List (String × String)) : Except PyErr Sh
   let given := fun (n : String) => match Style.getKV attrs n with
     | some v => !(Str.strip v.toList).isEmpty
     | none => false
-  if tag == "rect" && given "rx" && given "ry" && (r.getF "rx" == 0 || r.getF "ry" == 0) then
-    r := (r.set "rx" (.f 0.0)).set "ry" (.f 0.0)
+  if tag == "rect" then
+    let (rx, ry) := ShapeCmds.explicitZeroRadii (given "rx") (given "ry") (r.getF "rx") (r.getF "ry")
+    r := (r.set "rx" (.f rx)).set "ry" (.f ry)
   pure (postInit r)
 
 /-- `apply_style_attribute`: declarations whose property is a field of this dataclass are
